@@ -53,6 +53,13 @@ Proof. exact src_conservation. Qed.
 Theorem C20_src_sent_is_prefix : forall es, exists rest, concat (puts (rrun_src es)) = sent (rrun_src es) ++ rest.
 Proof. exact src_sent_is_prefix. Qed.
 
+Theorem C20_src_queue_steps : forall x, Queue_put x = [PutItem x; PutWake] /\ Queue_get = [GetWake; GetItem].
+Proof. exact (fun x => conj eq_refl eq_refl). Qed.
+Theorem C20_src_queue_whole_calls : forall calls,
+  let s := qrun (concat (map qcall_steps calls)) in
+  pputs s = O /\ pgets s = O /\ wake s = length (items s).
+Proof. exact src_queue_whole_calls. Qed.
+
 Print Assumptions C20_conservation.
 Print Assumptions C20_sent_is_prefix.
 Print Assumptions C20_drains.
@@ -68,3 +75,5 @@ Print Assumptions C20_src_other_error_propagates.
 Print Assumptions C20_src_run_is_model.
 Print Assumptions C20_src_conservation.
 Print Assumptions C20_src_sent_is_prefix.
+Print Assumptions C20_src_queue_steps.
+Print Assumptions C20_src_queue_whole_calls.
